@@ -277,6 +277,9 @@ class Emitter:
                 args[-1] = "1" if op[3] else "0"
             a = ", ".join(args + ([fl.a0] if fl.a0 else []))
             o.append("%svfb_%s(%s);" % (ind, k[1:], a))
+        elif k == "gdelete_all":
+            self.uses.add("bufhelpers")
+            o.append("%svfb_delete_all(%s);" % (ind, fl.a0))
         elif k == "tables":
             # load the serialized tables named by $VF_TABLES; a failing load ends the run
             o.append("%s{ const char *vf_p = getenv(\"VF_TABLES\"); FILE *vf_f = vf_p ? fopen(vf_p, \"rb\") : 0; "
@@ -405,7 +408,7 @@ class Emitter:
                           "vfb_scan_bytes(int s, int si%s)" % pa,
                           "vfb_scan_string(int s, int si%s)" % pa,
                           "vfb_scan_buffer(int s, int si, int ok%s)" % pa,
-                          "vfb_flush(int s%s)" % pa):
+                          "vfb_flush(int s%s)" % pa, "vfb_delete_all(%s)" % p0):
                 L.append("static void %s;" % proto)
         L.append("%}")
         opts = []
@@ -667,8 +670,13 @@ class Emitter:
         L.append("\tstatic struct vf_ctx ctx; int v, ncalls = 0;")
         if not fl.nr:
             L.append("\tyyscan_t yyscanner;")
+        nsess = int(d.get("sessions", 1))
+        L.append("\tint sess;")
         L.append("\tif (argc < 3) return 93;")
         L.append("\tvf_load(&ctx, argv[1], argv[2]); vf_tls = &ctx; vf_install();")
+        L.append("\tfor (sess = 0; sess < %d; ++sess) {" % nsess)
+        L.append("\tif (sess) { char vf_b[32]; snprintf(vf_b, sizeof vf_b, \"session %d\", sess); "
+                 "vf_X(&ctx, vf_b); vf_reset_session(&ctx); ncalls = 0; }")
         if fl.r or fl.c99:
             L.append("\tif (yylex_init(&yyscanner) != 0) { vf_puts(&ctx, \"F init\\n\"); "
                      "vf_finish(&ctx, 41); }")
@@ -709,8 +717,10 @@ class Emitter:
             L += self.xop_c(op, "\t", False)
         if o.get("destroy", True):
             L.append("\t%s;" % ("yylex_destroy()" if fl.nr else "yylex_destroy(yyscanner)"))
+        L.append("\tvf_free_slotmem(&ctx);")
         if o.get("ledger"):
             L.append("\tvf_ledger_report(&ctx);")
+        L.append("\t}")
         L.append("\tvf_ev1(&ctx, \"Z\");")
         L.append("\tvf_finish(&ctx, 0);")
         L.append("}")
@@ -780,6 +790,9 @@ class Emitter:
                  "vf_X(%s, b); if (r) { %s->slot[s] = r; %s->slotsrc[s] = -1; %s->slotmem[s] = m; "
                  "%s->bstk[%s->bdepth - 1] = s; } else free(m); }" % (
                      PA, c, c, c, call("yy_scan_buffer", "m, n + 2"), c, c, c, c, c, c))
+        H.append("static void vfb_delete_all(%s) { int s; for (s = 0; s < VF_MAXSLOT; ++s) "
+                 "if (%s->slot[s] && !vfb_onstack(s)) { %s; vfb_free(s); } vf_X(%s, \"delete_all\"); }" % (
+                     P, c, call("yy_delete_buffer", "(yybuffer) %s->slot[s]" % c), c))
         H.append("static void vfb_flush(int s%s) { char b[64]; "
                  "if (!%s->slot[s]) { vfb_skip(\"flush\"); return; } "
                  "if (%s->slotsrc[s] < 0) snprintf(b, sizeof b, \"flush %%d -\", s); "
